@@ -162,14 +162,14 @@ func multi(t []string) core.Result {
 		if h.a.Req {
 			werrA, werrB = h.reqA.Write(&outA), h.reqB.Write(&outB)
 			hA, hB = headOfReq(h.reqA, false), headOfReq(h.reqB, false)
-			hA.trailer, hB.trailer = msggen.SortedKV(h.reqA.Trailer), msggen.SortedKV(h.reqB.Trailer)
+			hA.trailer, hB.trailer = trailerKV(h.reqA.Trailer), trailerKV(h.reqB.Trailer)
 			if h.reqA.Close != h.reqB.Close || !reflect.DeepEqual(h.reqA.Header, h.reqB.Header) {
 				hA.line += " [close/header differ]"
 			}
 		} else {
 			werrA, werrB = h.resA.Write(&outA), h.resB.Write(&outB)
 			hA, hB = headOfRes(h.resA, false), headOfRes(h.resB, false)
-			hA.trailer, hB.trailer = msggen.SortedKV(h.resA.Trailer), msggen.SortedKV(h.resB.Trailer)
+			hA.trailer, hB.trailer = trailerKV(h.resA.Trailer), trailerKV(h.resB.Trailer)
 			if h.resA.Close != h.resB.Close || !reflect.DeepEqual(h.resA.Header, h.resB.Header) {
 				hA.line += " [close/header differ]"
 			}
